@@ -280,3 +280,14 @@ def run(repo: Repo, chk: Check, thorough: bool = False) -> None:
     if n74 < 1:
         raise AnalysisError('R07.4: no colorizer call with a refmap found (1 confirmed: templatewriter.pages.format_class_signature)')
     chk.require('R07.4', 1)
+
+    # ------------------------------------------------------------------ R07.2 (addition): `__all__: List[str] = [...]` is an `__all__`
+    # the module-level metadata (__all__, __docformat__) is collected by findModuleLevelAssign; the statement classes that bind a plain name to a value
+    # at module level are ast.Assign and ast.AnnAssign (oracle: the interpreter's ast) - an annotated `__all__` must decide re-exports like a bare one
+    fm = repo.func('pydoctor.astbuilder.findModuleLevelAssign')
+    classes_ = {x.attr for c in calls_in(fm) if call_name(c) == 'isinstance' and len(c.args) == 2 for x in ast.walk(c.args[1]) if isinstance(x, ast.Attribute) and dotted(x.value) == 'ast'}
+    want_ = {k for k in ('Assign', 'AnnAssign') if hasattr(ast, k)}
+    chk.ob('R07.2', 'pydoctor.astbuilder.findModuleLevelAssign :: annotated assignments are module-level assignments too', want_ <= classes_,
+           f'handles {sorted(classes_)}' if want_ <= classes_ else
+           f'only {sorted(classes_)} is collected: `__all__: List[str] = ["C"]` leaves Module.all at None, `C` stays under `pkg._impl` and nothing is reported '
+           '(`__docformat__: str = ...` is lost the same way)', fm.loc)
